@@ -59,6 +59,21 @@ template <class T, size_t N, size_t NM> static void run(const std::string& op, c
     else if (op == "ringsub") c = a - b;
     else { a.ntt_pow_phi(); b.ntt_pow_phi(); c = a * b; c.invntt_pow_invphi(); }
     showmpz(os, c);
+    if (op != "ringmul") {
+      // the same ring operations inside compound expressions (every overload of the operators: poly/poly, poly/expr, expr/poly, expr/expr) must
+      // agree with the two-operand forms the model is compared with:  (a + b) - (b + b) = a - b,  (a - b) - (b - a) = (a - b) + (a - b),
+      // a - (b + b) + b = a - b,  (a + a) - a = a
+      static P* y = alloc_aligned<P, 32>(6);
+      P &d = y[0], &e = y[1], &t1 = y[2], &t2 = y[3], &r1 = y[4], &r2 = y[5];
+      d = a - b; e = d + d;
+      bool okc = true;
+      r1 = (a + b) - (b + b); if (r1 != d) okc = false;
+      r1 = (a - b) - (b - a); if (r1 != e) okc = false;
+      t1 = b + b; r1 = a - (b + b); r2 = a - t1; if (r1 != r2) okc = false;
+      r1 = (a + a) - a; if (r1 != a) okc = false;
+      t1 = a + b; t2 = b - a; r1 = (a + b) + (b - a); r2 = t1 + t2; if (r1 != r2) okc = false;
+      if (!okc) os << "COMPOUND-EXPRESSION-DISAGREES ";
+    }
   } else os << "badop";
 }
 
